@@ -215,6 +215,8 @@ def snap_value(v, seen):
         return ('dict', tuple((snap_value(k, seen), snap_value(x, seen), ) for k, x in v.items()))
     if isinstance(v, (list, tuple)):
         return (type(v).__name__, tuple(snap_value(x, seen) for x in v))
+    if hasattr(v, 'tighten_bounds') and hasattr(v, 'bounds'):
+        return ('edit', type(v).__name__, id(v))        # which edit objects hang on a node, not their (refinable) bounds
     return (type(v).__name__, repr(v))
 
 
@@ -289,6 +291,17 @@ def check_purity(case, out):
     with guard('edited_cost'):
         d.edited_cost()
     if not compare('edited_cost()'):
+        return fam
+    # the result of a diff is a tree a caller may compare again: that second comparison must not alter it either
+    sd = snapshot(d)
+    with guard('diff of a diff result'):
+        d2 = d.diff(b)
+        d2.edited_cost()
+    nd = snapshot(d)
+    if nd != sd:
+        out.fail('diff-result-altered-by-second-diff', f"diffing the result of a.diff(b) again changed that result: {describe(sd, nd)}")
+        return fam
+    if not compare('a second diff of the diff result'):
         return fam
     for fmt in FORMATS:
         try:
